@@ -8,7 +8,8 @@ ID = "C20"
 AREA = "c20"
 LEAN_PROPS = "Litep2pVerif.Props.C20"
 THEOREMS = ["cid_self_certifying", "malformed_dropped", "prefix_roundtrip", "batches_partition",
-            "batch_size_bound_partial", "batch_size_bound", "fitting_blocks_sent_once", "batch_oversize_witness"]
+            "batch_size_bound_partial", "batch_size_bound", "fitting_blocks_sent_once", "batch_oversize_witness",
+            "presence_within_limit", "blocks_sent_regardless_of_presences"]
 CONSTS = ["MAX_MESSAGE_SIZE", "MAX_BATCH_SIZE", "MAX_BATCH_BLOCKS"]
 _CFG = "src/protocol/libp2p/bitswap/config.rs"
 CONST_TABLE = [
@@ -18,12 +19,18 @@ CONST_TABLE = [
 ]
 MANIFEST = {
     "text": "Lean 4 theorems about an executable model of the bitswap prefix codec, block_to_response / the inbound "
-            "payload loop (hash family as a parameter) and extract_next_batch / send_response / the prost size of a "
-            "blocks message: cid_self_certifying, malformed_dropped, prefix_roundtrip, batches_partition (all block "
-            "lists, termination by fuel with sufficiency proof), batch_size_bound (on the regenerated constants), "
-            "fitting_blocks_sent_once; plus a seeded correspondence run of the real functions (send_response over an "
-            "in-memory yamux substream, on_message_received on a real Bitswap instance) against the model and a "
-            "property-level oracle that recomputes digests with hashlib.",
+            "payload loop (hash family as a parameter) and extract_next_batch / send_response (presence message, then "
+            "the block loop; size guards, the codec's frame limit and the abort on a write error) / the prost size of a "
+            "blocks and of a presences message: cid_self_certifying, malformed_dropped, prefix_roundtrip, "
+            "batches_partition (all block lists, termination by fuel with sufficiency proof), batch_size_bound (on the "
+            "regenerated constants), fitting_blocks_sent_once, presence_within_limit (a presence message is written "
+            "only if its encoding is within MAX_MESSAGE_SIZE, and first), blocks_sent_regardless_of_presences (for "
+            "every mix of presences and blocks send_response returns Ok, writes an optional presence message followed "
+            "by exactly the messages of the block-only response, every message within MAX_MESSAGE_SIZE; an oversized "
+            "presence list is skipped as a whole - the code's actual behaviour - and never prevents blocks from being "
+            "sent); plus a seeded correspondence run of the real functions (send_response over an in-memory yamux "
+            "substream with the codec of the real Config, on_message_received on a real Bitswap instance) against the "
+            "model and a property-level oracle that recomputes digests with hashlib.",
     "note": "Trusted: Lean kernel; axioms propext/Classical.choice/Quot.sound; the hand-written models and their tie "
             "(sampled differential runs through adapter src/verif/c20.rs); hash functions, prost, cid, multihash, "
             "unsigned-varint, yamux are outside the proof (unsigned-varint's decode loop and prost's length formula are "
@@ -39,7 +46,10 @@ RULE = ("seeded cases of 4-9 operations: prefix_enc/prefix_dec (boundary values,
         "code, unsupported codes, CID v0/v1, odd codecs, data sizes 0..1 MiB, tampered payloads, malformed prefixes "
         "mixed with valid blocks), batches (size vectors around MAX_BATCH_SIZE — in the thorough tier every vector of "
         "length <= 4 over {0,1,M/2,M/2+1,M-1,M,M+1} —, sums crossing it, runs of tiny and "
-        "empty blocks around MAX_BATCH_BLOCKS, the 381301-block witness) run on the real code and on the Lean model; "
+        "empty blocks around MAX_BATCH_BLOCKS, the 381301-block witness; about a third of the responses also carry "
+        "presence entries interleaved with the blocks: 1..1000 mostly, rarely the largest count whose message fits "
+        "MAX_MESSAGE_SIZE, that count + 1, 104000, 105000, 120000, 262144 — the two boundary counts are corpus cases of "
+        "every run) run on the real code and on the Lean model; "
         "a case is non-trivial if it has a delivered and a dropped block or a response split into >= 2 messages; "
         "distinct = distinct (ops, observations) transcripts by SHA-256")
 TRUSTED_BASE = ["Lean 4.33 kernel", "axioms: propext, Classical.choice, Quot.sound only",
@@ -49,7 +59,8 @@ TRUSTED_BASE = ["Lean 4.33 kernel", "axioms: propext, Classical.choice, Quot.sou
                 "hashlib (sha2, sha3, blake2b) and a pure-Python Keccak checked against hashlib's SHA-3",
                 "prost encoding modelled by its length formula only; cid/multihash/unsigned-varint/yamux as black boxes "
                 "(unsigned-varint's u64 decode/encode loops are modelled exactly)"]
-ASSUMPTIONS = ["writes to the substream succeed (send_response aborts the whole response on a write error or timeout)",
+ASSUMPTIONS = ["the only write error is the codec's rejection of a frame above its limit (modelled; send_response aborts "
+               "the whole response on any write error or timeout); no timeout, the peer keeps reading",
                "Code::try_from(c) followed by .code() returns c (multihash-derive)",
                "usize is 64 bits; sums of block sizes do not overflow",
                "oracle: the node's hash set is within {sha1, sha2, sha3, keccak, blake2b, blake2s, md5}; a block delivered "
@@ -408,7 +419,68 @@ def repo_cap():
         return CAP
 
 
+def uvar_len(n):
+    return len(uvar(n))
+
+
+def cid_len(kind):
+    """len(cid.to_bytes()) for a `<v> <codec> <mh> <dlen>` kind (generator only)."""
+    v, codec, mh, dlen = map(int, kind.split())
+    mhl = uvar_len(mh) + uvar_len(dlen) + dlen
+    return mhl if v == 0 else 1 + uvar_len(codec) + mhl
+
+
+def presences_len(kind, n):
+    """Encoded size of the presence message of `n` entries as the adapter builds them (Have iff i % 3 == 0):
+    used by the generator to aim at the size limit, never by the oracle."""
+    c = cid_len(kind)
+    body = (1 + uvar_len(c) + c) if c else 0
+    have = 1 + uvar_len(body) + body
+    dont = 1 + uvar_len(body + 2) + body + 2
+    haves = (n + 2) // 3
+    return 2 + haves * have + (n - haves) * dont if n else 0
+
+
+def max_fitting_presences(kind):
+    lo, hi = 0, 1 << 18
+    while lo < hi:
+        mid = (lo + hi + 1) // 2
+        if presences_len(kind, mid) <= MSG_LIMIT:
+            lo = mid
+        else:
+            hi = mid - 1
+    return lo
+
+
+PRES_MAX = 1 << 18
+
+
+def pick_presences(rng, tier, kind):
+    """Number of presence entries of a response: mostly none or few; rarely around the message limit."""
+    r = rng.random()
+    if r < 0.62:
+        return None
+    big = {"quick": 0.03, "thorough": 0.08, "search": 0.25}[tier]
+    if rng.random() >= big:
+        return rng.choice([0, 1, 1, 2, 3, 4, 7, 10, 100, 1000])
+    try:
+        edge = max_fitting_presences(kind)
+    except ValueError:
+        edge = 101475
+    return min(PRES_MAX, rng.choice([edge, edge + 1, edge + 1, edge - 1, 104000, 105000, 120000, PRES_MAX, 2 * edge]))
+
+
+def with_presences(rng, tier, op):
+    kind = " ".join(op.split()[1:5])
+    n = pick_presences(rng, tier, kind)
+    return op if n is None else f"{op} pres={n}"
+
+
 def op_batches(rng, tier):
+    return [with_presences(rng, tier, op) for op in op_batches_blocks(rng, tier)]
+
+
+def op_batches_blocks(rng, tier):
     if tier == "search" and rng.random() < 0.3:
         cap = max(1, min(repo_cap(), 1 << 21))
         size = rng.choice([M // cap, max(M // cap, 1) - 1, 1, 0, 16])
@@ -493,6 +565,14 @@ def corpus():
     cases.append([f"batches 1 85 18 32 {M},{M + 1},{M - 1},1,1,{M // 2},{M // 2},0,{M}",
                   f"batches 1 85 18 32 1*{CAP},1*{CAP + 1},{M - 2 * CAP - 1},1,1",
                   "batches 1 18446744073709551615 18446744073709551615 64 1*65536,2097152"])
+    # presence lists at the message limit: the largest that fits, the first that does not (skipped by the
+    # code; the blocks must still go out), a far larger one, and one next to a response of several batches
+    k = "1 85 18 32"
+    edge = max_fitting_presences(k)
+    cases.append([f"batches {k} 1024,2048,512 pres={edge}", f"batches {k} 1024,2048,512 pres={edge + 1}",
+                  f"batches {k} 1024,2048,512 pres=120000", f"batches {k} - pres={edge + 1}",
+                  f"batches 0 112 18 32 {M},{M},1 pres={max_fitting_presences('0 112 18 32') + 1}",
+                  f"batches {k} 7,0,9 pres=2"])
     return cases
 
 
@@ -651,30 +731,40 @@ def oracle(case, out):
                 have = sum(1 for k in matched if must_deliver(src[k][0]))
                 if have < need:
                     v("valid-block-lost", f"{need - have} well-formed block(s) of the message were not delivered", i)
-        elif t[0] == "batches" and len(t) == 6:
+        elif t[0] == "batches" and (len(t) == 6 or (len(t) == 7 and t[6].startswith("pres="))):
             sizes = parse_sizes(t[5])
-            fields = dict(f.split("=", 1) for f in o.replace("[", "").replace("]", "").split(" ") if "=" in f)
             try:
                 body = o[o.index("msgs=[") + 6:o.index("] plan=[")]
             except ValueError:
                 v("unexpected", f"unexpected observation {o[:80]}", i)
                 continue
             msgs = [m.split("/") for m in body.split()] if body else []
-            if not o.startswith("ret=ok"):
-                v("send-failed", "send_response returned an error on a healthy substream", i)
             got = []
+            blocks_seen = False
             for enc, r in msgs:
                 if r == "undecodable":
                     v("undecodable-message", "a frame on the substream is not a bitswap message", i)
                     continue
-                ss = parse_rle(r)
-                got += ss
                 if int(enc) > MSG_LIMIT:
                     v("message-too-large", f"message of {enc} bytes exceeds the {MSG_LIMIT} byte limit", i)
-                if not ss:
-                    v("empty-message", "blocks message without blocks", i)
+                npres = 0
+                if r.startswith("P"):
+                    # P<entries>:<haves>[;<blocks rle>]
+                    r, _, tail = r.partition(";")
+                    npres = int(r[1:].split(":")[0])
+                    r = tail or "-"
+                    if blocks_seen:
+                        v("presence-after-blocks", "block presences were sent after blocks of the same response", i)
+                ss = parse_rle(r)
+                got += ss
+                blocks_seen = blocks_seen or bool(ss)
+                if not ss and not npres:
+                    v("empty-message", "message without blocks and presences", i)
             want = [s for s in sizes if s <= BATCH_LIMIT]
             got_fit = [s for s in got if s <= BATCH_LIMIT]
+            if not o.startswith("ret=ok"):
+                v("send-failed", f"send_response returned an error on a healthy substream after {len(msgs)} message(s); "
+                  f"{len(got_fit)} of the {len(want)} blocks that fit a message arrived", i)
             if got_fit != want:
                 k = next((k for k, (a, b) in enumerate(zip(got_fit, want)) if a != b), min(len(got_fit), len(want)))
                 v("blocks-not-sent-once", f"{len(want)} blocks fit a message, {len(got_fit)} arrived; first difference at "
@@ -697,11 +787,17 @@ def stats(case, out, acc):
         elif t[0] == "batches" and o.startswith("ret"):
             try:
                 body = o[o.index("msgs=[") + 6:o.index("] plan=[")]
-                plan = o[o.index("plan=[") + 6:o.index("] sub=")]
-                n = len(body.split())
+                plan = o[o.index(" plan=[") + 7:o.index("] pplan=[")]
+                pplan = o[o.index("pplan=[") + 7:o.index("] sub=")]
+                frames = body.split()
+                n = sum(1 for f in frames if "/P" not in f)
                 bump(acc, "batches:msgs:" + (str(n) if n < 4 else "4+"))
                 if len(plan.split()) != n:
                     bump(acc, "batches:dropped-batch")
+                if pplan != "-":
+                    sent = any("/P" in f for f in frames)
+                    bump(acc, "presences:" + ("sent" if sent else "skipped-oversized")
+                         + (":with-blocks" if plan else ":alone"))
             except ValueError:
                 pass
         if o.startswith("panic"):
